@@ -10,6 +10,7 @@ Inductive sstate :=
 | SNone          (* not handed to a session (yet) *)
 | SRegistered    (* wg.Add(1) done, goroutine not yet started *)
 | SRunning       (* serve() running: callbacks / handlers may run *)
+| SInFlight      (* serve() running, a request has been read and its handler has not returned yet *)
 | SClosed        (* serve() returning: conn.Close() done, wg.Done() pending *)
 | SEnded         (* wg.Done() done *)
 | SLateClosed.   (* accepted too late: closed by Serve, never served *)
@@ -27,12 +28,13 @@ Record st := {
   sess : list sstate;       (* by connection id *)
   wg : Z;                   (* WaitGroup counter *)
   a_pc : apc; s_pc : spc; w_pc : wpc;
-  ctx_expired : bool
+  ctx_expired : bool;
+  answered : list nat       (* one entry per response written: the connection it was written on *)
 }.
 
 Definition init : st :=
   {| done := false; lis_closed := false; backlog := []; sess := []; wg := 0;
-     a_pc := AAccepting; s_pc := SNotCalled; w_pc := WNotStarted; ctx_expired := false |}.
+     a_pc := AAccepting; s_pc := SNotCalled; w_pc := WNotStarted; ctx_expired := false; answered := [] |}.
 
 Inductive label :=
 | LConnect                 (* environment: a client connects *)
@@ -40,6 +42,8 @@ Inductive label :=
 | LAcceptFail              (* acceptor: Accept fails because the listener is closed *)
 | LRegister                (* acceptor: registerSession() *)
 | LSpawn                   (* acceptor: go s.serve(conn) *)
+| LReqStart (c : nat)      (* session c: a request has been decoded, its handler is entered *)
+| LReqEnd (c : nat)        (* session c: the handler returned and the response has been written *)
 | LSessClose (c : nat)     (* session c: conn.Close()  (peer gone, error, ...) *)
 | LSessDone (c : nat)      (* session c: wg.Done() *)
 | LShCloseDone             (* Shutdown: close(doneChan) *)
@@ -62,19 +66,19 @@ Definition sget (s : st) (c : nat) : sstate := nth c (sess s) SNone.
 
 Definition set_sess (s : st) (x : list sstate) : st :=
   {| done := done s; lis_closed := lis_closed s; backlog := backlog s; sess := x; wg := wg s;
-     a_pc := a_pc s; s_pc := s_pc s; w_pc := w_pc s; ctx_expired := ctx_expired s |}.
+     a_pc := a_pc s; s_pc := s_pc s; w_pc := w_pc s; ctx_expired := ctx_expired s; answered := answered s |}.
 Definition set_a (s : st) (x : apc) : st :=
   {| done := done s; lis_closed := lis_closed s; backlog := backlog s; sess := sess s; wg := wg s;
-     a_pc := x; s_pc := s_pc s; w_pc := w_pc s; ctx_expired := ctx_expired s |}.
+     a_pc := x; s_pc := s_pc s; w_pc := w_pc s; ctx_expired := ctx_expired s; answered := answered s |}.
 Definition set_s (s : st) (x : spc) : st :=
   {| done := done s; lis_closed := lis_closed s; backlog := backlog s; sess := sess s; wg := wg s;
-     a_pc := a_pc s; s_pc := x; w_pc := w_pc s; ctx_expired := ctx_expired s |}.
+     a_pc := a_pc s; s_pc := x; w_pc := w_pc s; ctx_expired := ctx_expired s; answered := answered s |}.
 Definition set_w (s : st) (x : wpc) : st :=
   {| done := done s; lis_closed := lis_closed s; backlog := backlog s; sess := sess s; wg := wg s;
-     a_pc := a_pc s; s_pc := s_pc s; w_pc := x; ctx_expired := ctx_expired s |}.
+     a_pc := a_pc s; s_pc := s_pc s; w_pc := x; ctx_expired := ctx_expired s; answered := answered s |}.
 Definition set_wg (s : st) (x : Z) : st :=
   {| done := done s; lis_closed := lis_closed s; backlog := backlog s; sess := sess s; wg := x;
-     a_pc := a_pc s; s_pc := s_pc s; w_pc := w_pc s; ctx_expired := ctx_expired s |}.
+     a_pc := a_pc s; s_pc := s_pc s; w_pc := w_pc s; ctx_expired := ctx_expired s; answered := answered s |}.
 
 Definition step (fixed : bool) (s : st) (l : label) : option st :=
   match l with
@@ -82,12 +86,12 @@ Definition step (fixed : bool) (s : st) (l : label) : option st :=
       if lis_closed s then None
       else Some {| done := done s; lis_closed := false; backlog := backlog s ++ [length (sess s)];
                    sess := sess s ++ [SNone]; wg := wg s; a_pc := a_pc s; s_pc := s_pc s; w_pc := w_pc s;
-                   ctx_expired := ctx_expired s |}
+                   ctx_expired := ctx_expired s; answered := answered s |}
   | LAcceptDequeue =>
       match a_pc s, backlog s, lis_closed s with
       | AAccepting, c :: r, false =>
           Some {| done := done s; lis_closed := false; backlog := r; sess := sess s; wg := wg s;
-                  a_pc := AHasConn c; s_pc := s_pc s; w_pc := w_pc s; ctx_expired := ctx_expired s |}
+                  a_pc := AHasConn c; s_pc := s_pc s; w_pc := w_pc s; ctx_expired := ctx_expired s; answered := answered s |}
       | _, _, _ => None
       end
   | LAcceptFail =>
@@ -109,6 +113,19 @@ Definition step (fixed : bool) (s : st) (l : label) : option st :=
       | ASpawn c => Some (set_a (set_sess s (upd c SRunning (sess s))) AAccepting)
       | _ => None
       end
+  | LReqStart c =>
+      match sget s c with
+      | SRunning => Some (set_sess s (upd c SInFlight (sess s)))
+      | _ => None
+      end
+  | LReqEnd c =>
+      match sget s c with
+      | SInFlight =>
+          Some {| done := done s; lis_closed := lis_closed s; backlog := backlog s; sess := upd c SRunning (sess s);
+                  wg := wg s; a_pc := a_pc s; s_pc := s_pc s; w_pc := w_pc s; ctx_expired := ctx_expired s;
+                  answered := answered s ++ [c] |}
+      | _ => None
+      end
   | LSessClose c =>
       match sget s c with
       | SRunning => Some (set_sess s (upd c SClosed (sess s)))
@@ -123,14 +140,14 @@ Definition step (fixed : bool) (s : st) (l : label) : option st :=
       match s_pc s with
       | SNotCalled =>
           Some {| done := true; lis_closed := lis_closed s; backlog := backlog s; sess := sess s; wg := wg s;
-                  a_pc := a_pc s; s_pc := SDoneClosed; w_pc := w_pc s; ctx_expired := ctx_expired s |}
+                  a_pc := a_pc s; s_pc := SDoneClosed; w_pc := w_pc s; ctx_expired := ctx_expired s; answered := answered s |}
       | _ => None
       end
   | LShCloseListener =>
       match s_pc s with
       | SDoneClosed =>
           Some {| done := done s; lis_closed := true; backlog := backlog s; sess := sess s; wg := wg s;
-                  a_pc := a_pc s; s_pc := SLisClosed; w_pc := w_pc s; ctx_expired := ctx_expired s |}
+                  a_pc := a_pc s; s_pc := SLisClosed; w_pc := w_pc s; ctx_expired := ctx_expired s; answered := answered s |}
       | _ => None
       end
   | LShStartWaiter =>
@@ -160,7 +177,7 @@ Definition step (fixed : bool) (s : st) (l : label) : option st :=
       end
   | LCtxExpire =>
       Some {| done := done s; lis_closed := lis_closed s; backlog := backlog s; sess := sess s; wg := wg s;
-              a_pc := a_pc s; s_pc := s_pc s; w_pc := w_pc s; ctx_expired := true |}
+              a_pc := a_pc s; s_pc := s_pc s; w_pc := w_pc s; ctx_expired := true; answered := answered s |}
   end.
 
 (* run a schedule; labels that are not enabled are skipped (so every label list is a schedule) *)
@@ -173,7 +190,7 @@ Fixpoint run (fixed : bool) (ls : list label) (s : st) : st :=
 Definition reachable (fixed : bool) (s : st) : Prop := exists ls, s = run fixed ls init.
 
 Definition active (x : sstate) : bool :=
-  match x with SRegistered | SRunning | SClosed => true | _ => false end.
+  match x with SRegistered | SRunning | SInFlight | SClosed => true | _ => false end.
 
 (* the steps the scheduler may still take on its own once the environment is quiet: waiter and select *)
 Definition internal_labels : list label := [LWaitReturn; LWaitSignal; LShSelectDone; LShSelectCtx; LAcceptFail].
